@@ -291,3 +291,28 @@ func (g *G) leaf(t string) string {
 }
 
 var genTypes = []string{"int", "float", "string", "bool", "ints", "strs", "anys", "any"}
+
+
+// ConstSoup builds an expression that puts many *similar but different* constants into one program: the same
+// number at several kinds (typed call arguments), strings that spell regexp patterns or numbers, folded
+// []int / []string literals and constant ranges with equal end points, lengths or printed forms.  The constant
+// pool (makeConstant) must keep them apart; the compile model does, so any too-coarse de-duplication in the
+// compiler shows up as a byte-for-byte disagreement and then as a wrong run result.
+func (g *G) ConstSoup() string {
+	n := g.pick("1", "2", "3", "7", "10")
+	atoms := []string{
+		n, n + ".0", `"` + n + `"`, "I64f(" + n + ")", "Half(" + n + ")", "Inc(" + n + ")", "Id(" + n + ")", "(" + n + " + 0)",
+		`"^a"`, `(S matches "^a")`, `"lo"`, `(T matches "lo")`, `"a b"`, `"a"`, `"b c"`,
+		"len(1.." + n + ")", "len([1, " + n + "])", "len([1, 9, 9, " + n + "])", "len([\"1\", \"" + n + "\"])",
+		"len([\"a b\", \"c\"])", "len([\"a\", \"b c\"])", "[\"a b\", \"c\"][1]", "[\"a\", \"b c\"][1]",
+		"count([1, 1, 3], {# == 1})", "count(1..3, {# == 1})", "filter([1, 9, 9, 4], {# > 1})", "filter(1..4, {# > 1})",
+		"[1, 0, 0, 4][1]", "[1, 2, 3, 4][1]", "(1..4)[1]", "(" + n + " in [1, 2, 3])", "(\"" + n + "\" in [\"1\", \"2\", \"3\"])",
+		"Sum(I, J)", "Sum(I, J, I)", "Sum(I)", "Fast(" + n + ")", "Fast(" + n + ", " + n + ")", "true", "nil", "0.0", "0",
+	}
+	k := 3 + g.r.Intn(6)
+	parts := make([]string, k)
+	for i := range parts {
+		parts[i] = atoms[g.r.Intn(len(atoms))]
+	}
+	return "[" + strings.Join(parts, ", ") + "]"
+}
